@@ -1197,11 +1197,11 @@ fn request(target: &str) -> Request {
     }
 }
 
-// (request target, host, kind, what the target resolves to)   kind 0: directory route "/*" on `site`, 1: file route
+// (request target, host, kind, what the target resolves to)   kind 0: directory route "/*" on `site`, 1: file route, 2: directory route "/alt/*" on `site/sub`
 // "/" = a directory named without the trailing slash (301), "-" = nothing (404).  Targets that differ only in a
 // trailing slash, in case, in percent-encoding or in the query string; the same path on two hosts with the same
 // and with different files behind it.
-const TARGETS: [(&str, usize, u8, &str); 18] = [
+const TARGETS: [(&str, usize, u8, &str); 22] = [
     ("/a.html", 0, 0, "a.html"),
     ("/a.html?v=2", 0, 0, "a.html"),
     ("/A.html", 0, 0, "A.html"),
@@ -1220,6 +1220,12 @@ const TARGETS: [(&str, usize, u8, &str); 18] = [
     ("/empty.txt", 0, 0, "empty.txt"),
     ("/nope.txt", 1, 0, "-"),
     ("/nope.txt", 0, 0, "-"),
+    // a second directory route, "/alt/*" on `site/sub` (kind 2): the same relative paths as under "/*" lead to other
+    // files or to nothing - the one cache of the server must keep the routes apart
+    ("/alt/c.css", 0, 2, "sub/c.css"),
+    ("/c.css", 0, 0, "-"),
+    ("/alt/index.html", 1, 2, "sub/index.html"),
+    ("/index.html", 1, 0, "-"),
 ];
 // the MIME type each file has by its extension (what a miss must answer)
 const FILES: [(&str, &str); 7] = [("a.html", "text/html"), ("A.html", "text/html"), ("b.png", "image/png"), ("sub/index.html", "text/html"),
@@ -1277,6 +1283,8 @@ fn handle(log: &HLog, state: &Arc<AppState>, site_s: &str, th: usize, target: (&
     let r = catch_unwind(AssertUnwindSafe(|| {
         if kind == 0 {
             directory_handler(req, st, site_s, "/*", host)
+        } else if kind == 2 {
+            directory_handler(req, st, &format!("{}/sub", site_s), "/alt/*", host)
         } else {
             file_handler(req, st, &path, host)
         }
@@ -1406,7 +1414,9 @@ fn cmd_sizerace(args: &[String]) {
         write_file(&log, &site, n, "application/octet-stream", &rng.bytes(size));
     }
     let stop = std::sync::atomic::AtomicBool::new(false);
-    let worst: Mutex<(usize, Option<Value>)> = Mutex::new((0, None));
+    // (largest total of the current round - None before the first sweep of the round, so that every round has a record,
+    //  also on a tree whose keys the observer does not know and whose totals are all 0 -, its record)
+    let worst: Mutex<(Option<usize>, Option<Value>)> = Mutex::new((None, None));
     std::thread::scope(|sc| {
         {
             let (state, log, uris, stop, worst) = (&state, &log, &uris, &stop, &worst);
@@ -1415,10 +1425,10 @@ fn cmd_sizerace(args: &[String]) {
                     let g = state.cache.read().unwrap_or_else(|e| e.into_inner());
                     let total: usize = uris.iter().map(|u| catch_unwind(AssertUnwindSafe(|| g.get(u, 0).map(|i| i.data.len()).unwrap_or(0))).unwrap_or(0)).sum();
                     let mut w = worst.lock().unwrap();
-                    if total > w.0 || (total > limit && w.1.is_none()) {
+                    if w.0.map_or(true, |m| total > m) {
                         let s = log.next();   // under the read guard: the position of the snapshot among the handler records
                         let now = now_secs();
-                        w.0 = total;
+                        w.0 = Some(total);
                         w.1 = Some(log.ev("sweep", s, 0, "", 0, "", total, 0, "", now, now, 0));
                     }
                     drop(w);
@@ -1444,7 +1454,7 @@ fn cmd_sizerace(args: &[String]) {
                 let s = v["seq"].as_u64().unwrap_or(0);
                 log.events.lock().unwrap().push((s, v));
             }
-            w.0 = 0;
+            w.0 = None;
         }
         stop.store(true, Ordering::SeqCst);
     });
